@@ -124,11 +124,6 @@ Ids(s) == { s[i].id : i \in 1..Len(s) }
 Without(s, ids) == LET keep(x) == x.id \notin ids IN SelectSeq(s, keep)
 
 \* --- LSM: write path ---------------------------------------------------------
-MemSizeOf(mm, mid) ==
-    IF mid = mm.memid THEN Size(mm.mem)
-    ELSE LET I == { i \in 1..Len(mm.imm) : mm.imm[i].id = mid }
-         IN IF I = {} THEN 0 ELSE Size(mm.imm[CHOOSE i \in I : TRUE].d)
-
 \* _compact(): select, merge, and (if there is output) wait for the write latency
 CompactStart(mm, c) ==
     LET cfg == mm.cfg
@@ -174,8 +169,11 @@ FlushInstall(mm, c) ==
 LsmWriteBegin(mm, c, key, v) ==
     Wait([mm EXCEPT !.mem = Put(@, key, v), !.cl[c].mid = mm.memid], c, "put_mem", mm.cfg.ML)
 
+\* `is_full` is evaluated on the memtable object that was written.  A memtable that has been rotated in the
+\* meantime never triggers a second flush: the code's rotated memtable is already cleared (deviation
+\* flush_clears_before_install), the design checks that the written memtable is still the active one.
 LsmWriteAfterMem(mm, c) ==
-    IF MemSizeOf(mm, mm.cl[c].mid) >= mm.cfg.memsize THEN FlushStart(mm, c) ELSE Finish(mm, c, 0, <<>>)
+    IF mm.cl[c].mid = mm.memid /\ Size(mm.mem) >= mm.cfg.memsize THEN FlushStart(mm, c) ELSE Finish(mm, c, 0, <<>>)
 
 \* --- LSM: read path ----------------------------------------------------------
 Maybe(cfg, d, key) == key \in DOMAIN d \/ <<DOMAIN d, key>> \in cfg.fp     \* bloom filter says "maybe"
